@@ -72,7 +72,7 @@ CHECKS = {
  'C03': dict(technique='interval analysis with wrap-guard/range-guard discharge on the decoder\'s option-number arithmetic (R-WIDTH), reject-arm must-return-0 typestate over a frozen condition table and parse-before-dispatch gating (R-PARSE-GATE), table agreement (R-CODEC-TAB)',
              text='Decides that the decoder cannot silently wrap an option number, that each malformed-input condition of the frozen table (reserved nibbles, '
                   'TKL 15, token longer than message, payload marker without payload, non-empty Empty, option-number overflow, runt datagram, truncated option) is '
-                  'still tested and only leads to a zero return, that the parser's pure output fields are assigned on every accepting path, and that the protocol layer is entered only after successful parser calls. Agreement with an '
+                  'still tested and only leads to a zero return, that the parser\'s pure output fields are assigned on every accepting path, and that the protocol layer is entered only after successful parser calls. Agreement with an '
                   'independent decoder on all inputs and the per-option length table are not decided.',
              design='6 C03'),
  'C04': dict(technique='stale-pointer typestate across may-reallocate calls (computed closure) and used_size/data/memmove pairing (R-FIXUP), narrowing-cast interval check (R-WIDTH)',
